@@ -288,6 +288,11 @@ func parentMain(p *Prop, tier string, seed int64) int {
 			wd = 15 * time.Minute
 		}
 	}
+	if v := os.Getenv("VERIF_WATCHDOG_S"); v != "" {
+		if n, err := strconv.Atoi(v); err == nil && n > 0 {
+			wd = time.Duration(n) * time.Second
+		}
+	}
 	type childOut struct {
 		exit int
 		res  *childResult
